@@ -219,7 +219,20 @@ func c08Pipe(c *vcore.Ctx) *vcore.Violation {
 		vol = 0
 	}
 	useProcess := src.Bool(1, 2, "writer_process")
-	c.Logf("collector cap=%d volume=%d writer=%s", n, vol, map[bool]string{true: "probe process", false: "goroutine"}[useProcess])
+	// the writer may stop for a while in the middle of its output (a program that computes between two
+	// prints): the collector must neither block it nor break its pipe, however long after the cap was reached
+	pause := []time.Duration{0, 0, 0, 0, 0, 0, 100 * time.Millisecond, 100 * time.Millisecond, 2500 * time.Millisecond, 6 * time.Second}[src.Int(10, "writer_pause")]
+	pauseAt := vol / 2
+	if src.Bool(1, 2, "pause_after_cap") && vol > n+1 {
+		pauseAt = n + 1 + (vol-n-1)/2
+	}
+	if vol < 2 {
+		pause = 0
+	}
+	if pause > 0 {
+		c.Fault("writer_pauses_mid_output")
+	}
+	c.Logf("collector cap=%d volume=%d writer=%s pause=%v after %d bytes", n, vol, map[bool]string{true: "probe process", false: "goroutine"}[useProcess], pause, pauseAt)
 	c.Event(fmt.Sprintf("pipe:%d:%d:%v", n, vol, useProcess))
 	c.MarkNonTrivial()
 	buf, err := pipe.NewBuffer(n)
@@ -232,12 +245,17 @@ func c08Pipe(c *vcore.Ctx) *vcore.Violation {
 		if useProcess {
 			// the sandboxed program writes to the collector's pipe as its stdout, reports on descriptor 2
 			w, out, _ := kPipe()
-			res, _ := runWithStdout(buf.W, w, []string{"out", "2", "write", "1", fmt.Sprint(vol), "exit", "0"})
+			script := []string{"out", "2", "write", "1", fmt.Sprint(vol), "exit", "0"}
+			if pause > 0 {
+				script = []string{"out", "2", "write", "1", fmt.Sprint(pauseAt), "sleep", fmt.Sprint(pause.Milliseconds()), "write", "1", fmt.Sprint(vol - pauseAt), "exit", "0"}
+			}
+			res, _ := runWithStdout(buf.W, w, script)
 			w.Close()
-			out.wait(5 * time.Second)
+			out.wait(20 * time.Second)
 			for _, l := range out.find("wrote ") {
 				f := strings.Fields(l)
-				wrote, _ = strconv.ParseInt(f[1], 10, 64)
+				k, _ := strconv.ParseInt(f[1], 10, 64)
+				wrote += k
 				if f[2] != "0" {
 					werr = fmt.Errorf("write errno %s", f[2])
 				}
@@ -248,10 +266,18 @@ func c08Pipe(c *vcore.Ctx) *vcore.Violation {
 		} else {
 			chunk := []int{1, 7, 512, 4096, 65536}[src.Int(5, "chunk")]
 			data := make([]byte, chunk)
+			paused := pause == 0
 			for wrote < vol {
+				if !paused && wrote >= pauseAt {
+					paused = true
+					time.Sleep(pause)
+				}
 				k := int64(chunk)
 				if vol-wrote < k {
 					k = vol - wrote
+				}
+				if !paused && wrote+k > pauseAt {
+					k = pauseAt - wrote
 				}
 				m, err := buf.W.Write(data[:k])
 				wrote += int64(m)
